@@ -912,9 +912,13 @@ def decode_all(xs):
     worlds = [rd.world()]
     for _ in range(NVAR - 1):
         worlds.append(rd.world() if rd.one() else None)
-    if rd.i != len(xs):
-        raise ValueError("trailing output")
-    return [w if w is not None else worlds[0] for w in worlds]
+    plans = []
+    while rd.i < len(xs):
+        tag = rd.one()
+        plans.append(rd.lst(rd.one) if tag == 1 else ("empty-operand" if tag == 2 else None))
+    out = [w if w is not None else worlds[0] for w in worlds]
+    out[0] = dict(out[0], plans=plans)
+    return out
 
 
 # ----------------------------------------------------------------------------- numeric meaning of the symbols
@@ -1138,6 +1142,24 @@ def run_cases(ctx, cases, replaying=False):
         except (KeyError, IndexError, ValueError) as e:      # the model refers to data the run never produced
             return ["model output cannot be evaluated against the run: %s: %s" % (type(e).__name__, e)]
     diffs = [[safe_compare(w[v], im) for v in range(NVAR)] for w, im in zip(worlds, impl)]
+    # overlap decisions of join(discard_overlapping_frames=True): the model compares symbolic frames, the code numbers.
+    # Where the two disagree (numerically equal frames with different terms, or a margin inside the guard band) the
+    # case cannot be expressed by the model: it is taken out of the tie (the model-free join oracle still applies).
+    excluded = 0
+    for ci, (w, im) in enumerate(zip(worlds, impl)):
+        plans = w[0].get("plans") or []
+        for d in im.get("overlap", []):
+            mp = plans[d["step"]] if d["step"] < len(plans) else None
+            if not isinstance(mp, list):
+                continue
+            num = [bool(x) for x in d["trim"]]
+            ambiguous = any(1e-4 <= m <= 5e-2 for m in d["margin"])
+            if ambiguous or [bool(x) for x in mp] != num:
+                diffs[ci] = [[] for _ in range(NVAR)]
+                excluded += 1
+                break
+    ctx.notes.setdefault("coverage_extra", {})["excluded_overlap_decision_not_expressible_by_terms"] = \
+        ctx.notes.get("coverage_extra", {}).get("excluded_overlap_decision_not_expressible_by_terms", 0) + excluded
     agree = None
     for v in range(NVAR):
         if all(not d[v] for d in diffs):
